@@ -136,6 +136,8 @@ impl<Event> Processor<&Event> for SimClock {
 #[derive(Debug, Default)]
 pub struct StrategyScript {
     pub next: Option<(Vec<OrderRequestCancel>, Vec<OrderRequestOpen>)>,
+    /// close-positions requests are produced by the shipped `DefaultStrategy` (ids re-labelled)
+    pub default_close: bool,
     /// whole-system runs (Sim H): batches released once the strategy has been asked `.0` times
     pub queue: std::collections::VecDeque<(u64, Vec<OrderRequestCancel>, Vec<OrderRequestOpen>)>,
     /// number of queued batches released so far
@@ -194,12 +196,30 @@ impl ClosePositionsStrategy for SimStrategy {
         AssetIndex: 'a,
         InstrumentIndex: 'a,
     {
-        // the real default logic, with deterministic (and unique) client order ids
-        close_open_positions_with_market_orders(&self.id, state, filter, move |inst| {
+        let label = move |inst: usize| {
             let mut s = self.script.lock().unwrap();
             s.close_seq += 1;
-            ClientOrderId::new(format!("close{}-{}", inst.key.0, s.close_seq))
-        })
+            ClientOrderId::new(format!("close{inst}-{}", s.close_seq))
+        };
+        if self.script.lock().unwrap().default_close {
+            // the shipped implementation itself (it labels orders with random client order ids, which
+            // are replaced by deterministic ones; its strategy id is kept)
+            let default = barter::strategy::DefaultStrategy::<St>::default();
+            let (cancels, opens) = default.close_positions_requests(state, filter);
+            let cancels: Vec<OrderRequestCancel> = cancels.into_iter().collect();
+            let opens: Vec<OrderRequestOpen> = opens
+                .into_iter()
+                .map(|mut o| {
+                    o.key.cid = label(o.key.instrument.0);
+                    o.key.strategy = self.id.clone();
+                    o
+                })
+                .collect();
+            return (cancels, opens);
+        }
+        // the real default logic, with deterministic (and unique) client order ids
+        let (cancels, opens) = close_open_positions_with_market_orders(&self.id, state, filter, move |inst| label(inst.key.0));
+        (cancels.into_iter().collect::<Vec<_>>(), opens.into_iter().collect::<Vec<_>>())
     }
 }
 
@@ -285,6 +305,14 @@ pub struct TopoB {
     pub inst_per_ex: Vec<usize>,
     /// None = exchange has no execution link at all
     pub links: Vec<Option<LinkMode>>,
+    /// every second instrument of an exchange is a perpetual with a contract size other than 1
+    #[serde(default)]
+    pub derivs: bool,
+    /// the instruments carry a specification (quantity increment 2, tick size, minimum notional) and
+    /// close-positions requests come from the shipped `DefaultStrategy` implementation (client order
+    /// ids re-labelled deterministically)
+    #[serde(default)]
+    pub with_spec: bool,
 }
 
 /// An order the scenario may request / report about. cid is "o{index}".
@@ -352,6 +380,10 @@ pub struct AlgoB {
 
 #[derive(Clone, Debug, Serialize, Deserialize, PartialEq)]
 pub struct StepB {
+    /// before this step the engine state is persisted and restored (serialised to JSON and read
+    /// back): a restart that keeps only what was written down
+    #[serde(default)]
+    pub restore: bool,
     /// link state changes applied immediately before the event is processed
     pub flips: Vec<(usize, LinkMode)>,
     /// what the strategy returns if the engine asks it during this step
@@ -391,8 +423,26 @@ pub struct WorldB {
 pub fn topo_instruments_b(topo: &TopoB) -> IndexedInstruments {
     let mut v = Vec::new();
     for (e, n) in topo.inst_per_ex.iter().enumerate() {
-        for p in PAIRS.iter().take((*n).clamp(1, 3)) {
-            v.push(spot(EXS[e], p.0, p.1));
+        for (k, p) in PAIRS.iter().take((*n).clamp(1, 3)).enumerate() {
+            if topo.derivs && k % 2 == 1 {
+                let mut i = perp(EXS[e], p.0, p.1);
+                if let barter_instrument::instrument::kind::InstrumentKind::Perpetual(c) = &mut i.kind {
+                    c.contract_size = if e % 2 == 0 { Decimal::new(10, 0) } else { Decimal::new(1, 2) };
+                }
+                v.push(i);
+            } else {
+                v.push(spot(EXS[e], p.0, p.1));
+            }
+            if topo.with_spec {
+                use barter_instrument::instrument::spec::{InstrumentSpec, InstrumentSpecNotional, InstrumentSpecPrice, InstrumentSpecQuantity, OrderQuantityUnits};
+                if let Some(i) = v.last_mut() {
+                    i.spec = Some(InstrumentSpec {
+                        price: InstrumentSpecPrice { min: Decimal::ZERO, tick_size: Decimal::new(1, 2) },
+                        quantity: InstrumentSpecQuantity { unit: OrderQuantityUnits::Contract, min: Decimal::ZERO, increment: Decimal::new(2, 0) },
+                        notional: InstrumentSpecNotional { min: Decimal::ZERO },
+                    });
+                }
+            }
         }
     }
     IndexedInstruments::new(v)
@@ -452,7 +502,7 @@ impl WorldB {
             },
             &bal_refs,
         );
-        let script = Arc::new(Mutex::new(StrategyScript::default()));
+        let script = Arc::new(Mutex::new(StrategyScript { default_close: sc.topo.with_spec, ..Default::default() }));
         let txs: MultiExchangeTxMap<SimTx> = instruments
             .exchanges()
             .iter()
@@ -564,9 +614,8 @@ impl WorldB {
             }
             EvB::CmdCancelOrders { filter } | EvB::CmdClosePositions { filter } => match filter {
                 FilterB::None => true,
-                FilterB::Exchanges(v) => !v.is_empty(),
-                FilterB::Instruments(v) => !v.is_empty(),
-                FilterB::UnderlyingsOf(v) => v.iter().any(|i| *i < self.n_inst()),
+                FilterB::Exchanges(_) | FilterB::Instruments(_) => true,
+                FilterB::UnderlyingsOf(v) => v.is_empty() || v.iter().any(|i| *i < self.n_inst()),
             },
             EvB::Trading { .. } | EvB::Shutdown => true,
         }
@@ -641,9 +690,12 @@ impl WorldB {
                         time_exchange: ts(*t),
                     }),
                     RepB::Expired => OrderState::expired(),
-                    RepB::Failed => OrderState::Inactive(InactiveOrderState::OpenFailed(
-                        OrderError::Rejected(ApiError::OrderRejected("sim".into())),
-                    )),
+                    // (the kind of failure varies with the order: rejected / exchange offline / timeout)
+                    RepB::Failed => OrderState::Inactive(InactiveOrderState::OpenFailed(match ord % 3 {
+                        0 => OrderError::Rejected(ApiError::OrderRejected("sim".into())),
+                        1 => OrderError::Connectivity(ConnectivityError::ExchangeOffline(EXS[ex.min(3)])),
+                        _ => OrderError::Connectivity(ConnectivityError::Timeout),
+                    })),
                 };
                 let mut snap = order_snapshot(
                     okey(ex, o.inst, &Self::cid(*ord)),
@@ -671,9 +723,10 @@ impl WorldB {
                                 time_exchange: ts(*t),
                             })
                         } else {
-                            match t.rem_euclid(3) {
+                            match t.rem_euclid(4) {
                                 0 => Err(OrderError::Connectivity(ConnectivityError::Timeout)),
                                 1 => Err(OrderError::Rejected(ApiError::RateLimit)),
+                                2 => Err(OrderError::Connectivity(ConnectivityError::ExchangeOffline(EXS[o.ex.min(3)]))),
                                 _ => Err(OrderError::Rejected(ApiError::OrderRejected("sim".into()))),
                             }
                         },
@@ -837,7 +890,12 @@ pub fn plan_b(rng: &mut Rng, cfg: &PlanCfg) -> ScenarioB {
             }
         })
         .collect();
-    let topo = TopoB { inst_per_ex, links };
+    let topo = TopoB {
+        inst_per_ex,
+        links,
+        derivs: cfg.focus == Focus::Pnl && rng.chance(1, 2),
+        with_spec: cfg.focus == Focus::Commands && rng.chance(1, 3),
+    };
     let instruments = topo_instruments_b(&topo);
     let n_inst = instruments.instruments().len();
     let n_assets = instruments.assets().len();
@@ -896,7 +954,8 @@ pub fn plan_b(rng: &mut Rng, cfg: &PlanCfg) -> ScenarioB {
     let rand_filter = |rng: &mut Rng| -> FilterB {
         let subset = |rng: &mut Rng, n: usize| -> Vec<usize> {
             let mut v: Vec<usize> = (0..n).filter(|_| rng.chance(1, 2)).collect();
-            if v.is_empty() {
+            // an empty selection is legal and selects nothing; keep it now and then
+            if v.is_empty() && !rng.chance(1, 3) {
                 v.push(rng.usize(n));
             }
             v
@@ -1300,12 +1359,14 @@ pub fn plan_b(rng: &mut Rng, cfg: &PlanCfg) -> ScenarioB {
             && matches!(ev, EvB::CmdCancelOrders { .. } | EvB::CmdClosePositions { .. })
             && rng.chance(1, 3);
         steps.push(StepB {
+            restore: cfg.focus == Focus::Connectivity && rng.chance(1, 12),
             flips,
             algo,
             ev: ev.clone(),
         });
         if repeat {
             steps.push(StepB {
+                restore: false,
                 flips: vec![],
                 algo: None,
                 ev,
@@ -1317,6 +1378,7 @@ pub fn plan_b(rng: &mut Rng, cfg: &PlanCfg) -> ScenarioB {
         match rng.below(4) {
             0 => {} // feed simply ends
             _ => steps.push(StepB {
+                restore: false,
                 flips: vec![],
                 algo: None,
                 ev: EvB::Shutdown,
@@ -1324,6 +1386,7 @@ pub fn plan_b(rng: &mut Rng, cfg: &PlanCfg) -> ScenarioB {
         }
     } else if rng.chance(1, 4) {
         steps.push(StepB {
+            restore: false,
             flips: vec![],
             algo: Some(AlgoB {
                 opens: vec![],
